@@ -117,7 +117,7 @@ func (s *session) violation(key, what string) {
 	s.ctx.Violation(key, fmt.Sprintf("[%s %s] %s", s.id, s.pair, what), map[string]any{
 		"session": s.id, "pairing": s.pair.String(), "seed": s.ctx.Seed,
 		"scenario": map[string]any{"garbageI": s.sc.garbage[epI], "garbageR": s.sc.garbage[epR],
-			"decoysI": s.sc.decoys[epI], "decoysR": s.sc.decoys[epR], "prefixMatch": s.sc.pm, "hello": s.hello},
+			"decoysI": s.sc.decoys[epI], "decoysR": s.sc.decoys[epR], "prefixMatch": s.sc.pm, "hello": s.hello, "uPlusP": s.sc.uPlusP},
 		"steps": s.steps, "job": s.job, "real_rekey_interval": s.realRI,
 		"behaviour": stateTexts(s.states, s.at),
 	})
@@ -130,6 +130,7 @@ func (s *session) start(first tla.State) {
 		garbage: [2]int{sc.F("gI").Int(), sc.F("gR").Int()},
 		decoys:  [2][]int{decoyLens(sc.F("dI").Int()), decoyLens(sc.F("dR").Int())},
 		pm:      sc.F("pm").Int(),
+		uPlusP:  sc.Has("enc") && sc.F("enc").Str() == "uplusp",
 	}
 	s.l = newLink()
 	mk := func(kind string, e int) endpoint {
